@@ -25,16 +25,34 @@ def sh(cmd, **kw):
 
 
 def run_demo(repo, demo, timeout=600):
+    """Runs a demonstration in a session of its own with the default SIGINT disposition (a background job
+    of a non-interactive shell inherits SIGINT as ignored, and Python then never raises KeyboardInterrupt),
+    output to a file (orphaned manager processes of a demo would keep a pipe open), and removes whatever
+    processes it leaves behind."""
+    import signal
     env = {**os.environ, 'PYTHONPATH': repo}
+    logf = tempfile.NamedTemporaryFile(prefix='simlab-demo-', suffix='.log', dir='/tmp', delete=False)
     try:
-        # (a background job of a non-interactive shell inherits SIGINT as ignored, and Python then never
-        # raises KeyboardInterrupt: demonstrations that send interrupts need the default disposition)
-        import signal
-        p = sh([PY, demo], cwd=repo, env=env, timeout=timeout,
-               preexec_fn=lambda: signal.signal(signal.SIGINT, signal.SIG_DFL))
-        return p.returncode, (p.stdout + p.stderr)[-600:]
-    except subprocess.TimeoutExpired:
-        return 124, 'timeout'
+        p = subprocess.Popen([PY, demo], cwd=repo, env=env, stdout=logf, stderr=subprocess.STDOUT, stdin=subprocess.DEVNULL,
+                             start_new_session=True, preexec_fn=lambda: signal.signal(signal.SIGINT, signal.SIG_DFL))
+        try:
+            rc = p.wait(timeout=timeout)
+        except subprocess.TimeoutExpired:
+            rc = 124
+        try:
+            os.killpg(p.pid, signal.SIGKILL)
+        except (ProcessLookupError, PermissionError):
+            pass
+        if rc == 124:
+            p.wait()
+            return 124, 'timeout'
+        logf.flush()
+        with open(logf.name, 'rb') as f:
+            out = f.read().decode('utf-8', 'replace')
+        return rc, out[-600:]
+    finally:
+        logf.close()
+        os.unlink(logf.name)
 
 
 def main(argv):
